@@ -1272,7 +1272,10 @@ def parse_deftype(toks):
 
     letters = set()
     for start, end in ranges:
+        # letter case is not significant (DEFINT a-Z is DEFINT A-Z)
+        start = start.lower()
         if end:
+            end = end.lower()
             letters.update(
                 chr(c) for c in range(ord(start), ord(end) + 1))
         else:
